@@ -5,7 +5,7 @@ import ast
 import copy
 from typing import Dict, List, Optional, Set
 
-from .index import Func, dotted, own_nodes
+from .index import Func, dotted, own_nodes, parents
 
 
 def body_wo_doc(node) -> List[ast.stmt]:
@@ -483,3 +483,76 @@ def square_base(e: ast.AST):
     if isinstance(e, ast.Call) and (dotted(e.func) or "") in ("np.power", "numpy.power") and len(e.args) == 2 and is_num(e.args[1], 2):
         return e.args[0]
     return None
+
+
+def compared_constants(func: Func, var: str) -> Optional[List]:
+    """The constants a function compares `var` with by `==`: directly (`if var == "state"`) or through a scan of a literal table
+    (`for key, x in TABLE: if var == key`, TABLE a literal / local / module-level tuple of tuples).  None when a comparison of
+    `var` with something that cannot be resolved to constants is found (the caller must not read that as an empty table)."""
+    out = []
+    for n in own_nodes(func.node):
+        if not (isinstance(n, ast.Compare) and len(n.ops) == 1 and isinstance(n.ops[0], ast.Eq)):
+            continue
+        l, r = n.left, n.comparators[0]
+        if unparse(r) == var:
+            l, r = r, l
+        if unparse(l) != var:
+            continue
+        if isinstance(r, ast.Constant):
+            out.append(r.value)
+            continue
+        if not isinstance(r, ast.Name):
+            return None
+        loops = [p for p in parents(n) if isinstance(p, (ast.For, ast.comprehension))]
+        got = None
+        for lp in loops:
+            tg = lp.target
+            pos = None
+            if isinstance(tg, ast.Name) and tg.id == r.id:
+                pos = -1
+            elif isinstance(tg, ast.Tuple):
+                for i, e in enumerate(tg.elts):
+                    if isinstance(e, ast.Name) and e.id == r.id:
+                        pos = i
+            if pos is None:
+                continue
+            seq = literal_seq(func, lp.iter)
+            if seq is None:
+                return None
+            vals = []
+            for e in seq.elts:
+                if pos == -1:
+                    c = e
+                elif isinstance(e, (ast.Tuple, ast.List)) and pos < len(e.elts):
+                    c = e.elts[pos]
+                else:
+                    return None
+                if not isinstance(c, ast.Constant):
+                    return None
+                vals.append(c.value)
+            got = vals
+            break
+        if got is None:
+            return None
+        out.extend(got)
+    return out
+
+
+def const_in(func: Func, e: ast.AST):
+    """const(e), seeing through a name bound once in the function - or once at module level - to a literal; NOCONST otherwise"""
+    c = const(e)
+    if c is not NOCONST or not isinstance(e, ast.Name):
+        return c
+    f = func
+    while f is not None:
+        if e.id in {p.arg for p in f.all_params}:
+            return NOCONST
+        if assignments(f.node).get(e.id):
+            d = single_defs(f).get(e.id)
+            return const(d) if d is not None else NOCONST
+        f = f.parent
+    d = func.module.assigns.get(e.id)
+    n = sum(1 for st in func.module.tree.body if isinstance(st, (ast.Assign, ast.AnnAssign, ast.AugAssign))
+            for t in (st.targets if isinstance(st, ast.Assign) else [st.target]) if isinstance(t, ast.Name) and t.id == e.id)
+    return const(d) if d is not None and n == 1 else NOCONST
+
